@@ -353,6 +353,47 @@ func init() {
 			sweep(c, r, s, "opreturn")
 		}
 
+		c.Phase("opreturn-large-tails") // a top-level OP_RETURN followed by data on both sides of 2^15 and 2^16 bytes (and one far beyond), as raw bytes and as one push
+		for i, L := range []int{32766, 32767, 32768, 32769, 65531, 65532, 65533, 65534, 65535, 65536, 65537, 70000, 140000} {
+			if !c.Case(uint64(i)) {
+				continue
+			}
+			r := c.Rand(uint64(i))
+			raw := r.Bytes(L)
+			raw[0] = 0x51 // not a push header: the tail is junk after the first instruction
+			script(c, &c13Script{Script: append([]byte{0x6a}, raw...), Class: "opreturn-large-tail"})
+			script(c, &c13Script{Script: append([]byte{0x00, 0x6a}, refcodec.MinimalPush(r.Bytes(L-5))...), Class: "opreturn-large-tail"})
+			script(c, &c13Script{Script: append([]byte{0x51, 0x63, 0x6a, 0x68, 0x6a}, raw[:L-4]...), Class: "opreturn-large-tail"})
+		}
+		c.Phase("standard-template-mutations") // instances of every standard template with each byte flipped, replaced by a push opcode, removed or duplicated: scripts as long as a template and almost one
+		{
+			n := uint64(0)
+			shapes := len(c14Instances(prng.New(0, "C14-shapes", 0), false))
+			for si := 0; si < shapes; si++ {
+				n++
+				if !c.Case(n) {
+					continue
+				}
+				r := c.Rand(n)
+				inst := c14Instances(r, false)[si]
+				if len(inst.s) > 700 {
+					continue
+				}
+				script(c, &c13Script{Script: inst.s, Class: "template"})
+				c14Mutate(inst.s, len(inst.s) <= 120, func(class string, m []byte) {
+					script(c, &c13Script{Script: m, Class: "template-mutant"})
+				})
+				for k := 0; k < len(inst.s) && len(inst.s) <= 120; k++ { // every position holding each kind of push header
+					for _, op := range []byte{0x01, 0x02, 0x14, 0x4b, 0x4c, 0x4d, 0x4e} {
+						if inst.s[k] != op {
+							m := append([]byte{}, inst.s...)
+							m[k] = op
+							script(c, &c13Script{Script: m, Class: "template-mutant"})
+						}
+					}
+				}
+			}
+		}
 		c.Phase("asm-lookalike-pushes") // multi-byte pushes whose hex text could be read as something else: decimal numbers, zero runs, base-prefixed or floating-point literals
 		n = 0
 		{
